@@ -457,3 +457,34 @@ if (true) {
 
   // TODO: add a symbolic test for Rewrite
 }
+
+/// Verification hooks: wrappers and constructors for private items (cargo feature `verif-hooks`).
+#[cfg(feature = "verif-hooks")]
+#[doc(hidden)]
+pub mod verif_hooks {
+  use super::*;
+  pub fn resolve_char(opt: &Option<i32>, dft: i32, len: i32) -> usize {
+    super::resolve_char(opt, dft, len)
+  }
+  pub fn substring(source: &str, start_char: Option<i32>, end_char: Option<i32>) -> Transformation<String> {
+    Transformation::Substring(Substring {
+      source: source.to_string(),
+      start_char,
+      end_char,
+    })
+  }
+  pub fn replace(source: &str, replace: &str, by: &str) -> Transformation<String> {
+    Transformation::Replace(Replace {
+      source: source.to_string(),
+      replace: replace.to_string(),
+      by: by.to_string(),
+    })
+  }
+  pub fn rewrite(source: &str, rewriters: Vec<String>, join_by: Option<String>) -> Transformation<String> {
+    Transformation::Rewrite(Rewrite {
+      source: source.to_string(),
+      rewriters,
+      join_by,
+    })
+  }
+}
